@@ -1,9 +1,10 @@
 ------------------------------- MODULE MC_Reload -------------------------------
 EXTENDS Reload
 \* keys: 1 chacha/s1 id1, 2 aes-128/s2 id2, 3 aes-256/s3 id3, 4 chacha/s1 id4 (same cipher+secret as key 1),
-\*       5 unusable cipher, 6 aes-192/s4 id6, 7 aes-256/s1 id7 (the SECRET of key 1 under another cipher: a different key)
-MCKeyCS == <<1, 2, 3, 1, 0, 4, 5>>
-MCKeyID == <<1, 2, 3, 4, 5, 6, 7>>
+\*       5 unusable cipher, 6 aes-192/s4 id6, 7 aes-256/s1 id7 (the SECRET of key 1 under another cipher: a different key),
+\*       8 aes-256/s1 id1 (key 1 itself - same id, same secret - after its cipher was changed)
+MCKeyCS == <<1, 2, 3, 1, 0, 4, 5, 5>>
+MCKeyID == <<1, 2, 3, 4, 5, 6, 7, 1>>
 \* addresses 1..3: service addresses; 4, 5: legacy ports (":port", all interfaces)
 T(a) == <<"tcp", a>>
 U(a) == <<"udp", a>>
@@ -33,6 +34,9 @@ Cat == {
   Ok(<< <<4, 1>>, <<5, 5>> >>, <<>>),                                          \* bad cipher among the legacy keys
   Ok(<<>>, << Svc(<<2, 1>>, <<U(1), T(3)>>), Svc(<<4>>, <<T(2)>>) >>),
   Ok(<<>>, << Svc(<<1, 7, 2>>, <<T(1), U(1)>>), Svc(<<7, 4>>, <<T(2), U(2)>>) >>),
+  Ok(<<>>, << Svc(<<8, 2>>, <<T(1), U(1)>>) >>),                                \* the first configuration with the cipher of key 1 changed
+  Ok(<< <<4, 8>>, <<4, 2>>, <<5, 3>> >>, <<>>),                                 \* the same for the legacy format
+  Ok(<<>>, << Svc(<<8, 5>>, <<T(1), U(1)>>) >>),                                \* fails (bad cipher) after key 8 was built
   Ok(<< <<4, 1>>, <<5, 3>>, <<4, 2>>, <<5, 6>>, <<4, 6>> >>, <<>>),                  \* legacy keys with interleaved ports
   Ok(<< <<5, 2>>, <<4, 3>>, <<5, 1>> >>, << Svc(<<7>>, <<T(1), U(1)>>) >>),
   \* "siblings": the listeners of a configuration above with OTHER keys, failing after that service was processed
@@ -50,7 +54,8 @@ CatOk == {
   Ok(<< <<4, 1>>, <<4, 2>>, <<5, 3>> >>, <<>>),
   Ok(<< <<4, 6>>, <<4, 2>> >>, << Svc(<<1>>, <<T(1), U(1)>>) >>),
   Ok(<<>>, << Svc(<<2, 1>>, <<U(1), T(3)>>), Svc(<<4>>, <<T(2)>>) >>),
-  Ok(<<>>, << Svc(<<1, 7>>, <<T(1), U(1)>>), Svc(<<7, 4>>, <<T(2), U(2), T(3)>>) >>)
+  Ok(<<>>, << Svc(<<1, 7>>, <<T(1), U(1)>>), Svc(<<7, 4>>, <<T(2), U(2), T(3)>>) >>),
+  Ok(<<>>, << Svc(<<8, 2>>, <<T(1), U(1)>>) >>)
 }
 NoListeners == {}
 \* a small catalogue for the exhaustive quick run
